@@ -1,5 +1,6 @@
 /-
-  Core engine (stage S2): `execute_ok` and small facts used by `fetchStep_ok`.  Core Lean only.
+  CoreAcc engine (adapted copy of CoreExec.lean): `discardEdges` lemmas, `execute_ok` and small
+  facts used by `fetchStep_ok`.  Core Lean only.
 -/
 import SalsaVerif.Proofs.CoreAccRun
 
